@@ -257,7 +257,11 @@ def random_plan(seed, tier):
                 items.append({'k': 'real', 'text': g.choice(REAL_OK[ph]).format(n=n)})
             else:
                 # a real instruction that fails validation (no stub involved): missing home file / undefined symbol
+                # (a missing file named by an absolute path depends on no directory of the case: checked before the
+                # sandbox exists, like a file in the home directory)
                 v = g.choice([('copy no-such-file-%d' % n, 'pre_sds', 'svh_validation'),
+                              ('copy /no/such/dir/file-%d' % n, 'pre_sds', 'svh_validation'),
+                              ('file q%d.txt = -contents-of /no/such/dir/file-%d' % (n, n), 'pre_sds', 'svh_validation'),
                               ('def string RV%d = @[UNDEFINED_%d]@' % (n, n), 'symbols', 'undefined_symbol')])
                 items.append({'k': 'real', 'id': ident, 'text': v[0], 'vfail': {'step': v[1], 'kind': v[2]}})
         case[ph] = items
